@@ -297,7 +297,11 @@ def quiet_logging() -> None:
     import comb_spec_searcher  # noqa: F401  (sets INFO at import)
 
     logzero.loglevel(logging.CRITICAL)
-    logging.getLogger("logzero_default").setLevel(logging.CRITICAL)
+    lg = logzero.logger
+    for h in list(lg.handlers):
+        lg.removeHandler(h)
+    lg.addHandler(logging.NullHandler())
+    lg.propagate = False
     warnings.resetwarnings()
     warnings.simplefilter("ignore")
 
